@@ -54,6 +54,7 @@ func (c07) build(src *gen.Source) *Case {
 	case 5:
 		c.Reader.Kind = "bufio.Reader"
 	}
+	c.Bystander = true
 	nlAliases := false
 	if src.Chance(1, 4) {
 		// a benign alias table (values keep every command well-formed): substitution at command position,
